@@ -33,7 +33,7 @@ func (f c07Fault) String() string {
 
 func runC07(c *Ctx) {
 	rep := c.Rep
-	rep.Meta("cases: (a) black box — real GMSSL sessions (both suites, both directions) through a MITM transport that applies one fault to one application-phase record: bit flip (every region: header, explicit IV/nonce, ciphertext, MAC/tag), truncation/extension by 1..32 and by a block, adjacent swap, duplicate, drop, injection of a record from the opposite direction or from another connection, header type/version/length rewrite, early end of stream; monitors: prefix-stream at the receiver with the exact byte count implied by the reference decoder's per-record plaintext lengths, sticky error, alert on the wire, nothing delivered after the first affected record; (b) white box through the halfConn hook — every bit of every record for payload sizes {0,1,15,16,17,31,32,100} against a receiver at the right sequence number (exhaustive), sampled to 16384 bytes; reference-built CBC records with every padding length 0..255 (valid ones must be accepted; each corrupted padding byte, MAC byte or length byte must be rejected); order/replay/sequence monitors; gmsm-sealed records opened by the reference under index-as-sequence-number and vice versa; (c) passive nonce monitors over all sessions of the run: explicit CBC IVs pairwise distinct and not the previous ciphertext block, GCM explicit nonce = sequence number 0,1,2,... Distinct non-trivial = distinct (suite, direction, fault kind, region/size).",
+	rep.Meta("cases: (a) black box — real GMSSL sessions (both suites, both directions) through a MITM transport that applies one fault to one application-phase record: bit flip (every region: header, explicit IV/nonce, ciphertext, MAC/tag), truncation/extension by 1..32 and by a block, adjacent swap, duplicate, drop, injection of a record from the opposite direction or from another connection, header type/version/length rewrite, early end of stream; monitors: prefix-stream at the receiver with the exact byte count implied by the reference decoder's per-record plaintext lengths, sticky error, alert on the wire, nothing delivered after the first affected record; (b) white box through the halfConn hook — every bit of every record for payload sizes {0,1,15,16,17,31,32,100} against a receiver at the right sequence number (exhaustive), sampled to 16384 bytes; reference-built CBC records with every padding length 0..255 (valid ones must be accepted; each corrupted padding byte, MAC byte or length byte must be rejected); order/replay/sequence monitors; gmsm-sealed records opened by the reference under index-as-sequence-number and vice versa; (c) passive nonce monitors over all sessions of the run: explicit CBC IVs pairwise distinct and not the previous ciphertext block, GCM explicit nonce = sequence number 0,1,2,...; (d) the same record faults on sessions of the standard-TLS rows of the suite table that share the record layer (RC4; CBC with implicit IV and 1/n-1 splitting at TLS 1.0, explicit IV at 1.1/1.2, SHA-1 and SHA-256 MACs, AES and 3DES; AES-128/256-GCM; ChaCha20-Poly1305): exact delivered-byte count where every Write is one record (constant write size, records per Write measured by a fault-free control session), position-free oracle under dynamic record sizing. Distinct non-trivial = distinct (suite, direction, fault kind, region/size).",
 		3000, []string{"ref TLCP record layer (ref SM4, HMAC-SM3, crypto/cipher CBC/GCM)"},
 		[]string{"header length bytes are not interpreted by halfConn.decrypt (framing is the connection's job): covered only in the black-box layer"})
 	r := c.Rng("c07")
@@ -59,6 +59,8 @@ func runC07(c *Ctx) {
 		runC07Session(c, pki, suite, faults[i], i, &ivMu, seenIV)
 	})
 	rep.Count("distinct_cbc_explicit_ivs_observed", int64(len(seenIV)))
+	runC07TLS(c, pki)
+	rep.Require("blackbox_tls_sessions_with_fault_applied", 60)
 }
 
 // c07Foreign holds records captured from an unrelated connection (same certificates), used for injection.
@@ -110,123 +112,8 @@ func runC07Session(c *Ctx, pki *tlsPKI, suite uint16, f c07Fault, idx int, ivMu 
 		}
 	}
 	ccfg, scfg := mkCfgs()
-	var armed int32
-	var cnt [2]int
-	var held []byte
-	var lastReverse [2][]byte
-	faultApplied := int32(0)
-	var mmu sync.Mutex
-	mut := func(fc bool, i int, rec []byte) ([][]byte, bool) {
-		mmu.Lock()
-		defer mmu.Unlock()
-		d := 1
-		if fc {
-			d = 0
-		}
-		if atomic.LoadInt32(&armed) == 0 {
-			return nil, false
-		}
-		if rec[0] == ref.RecAppData {
-			lastReverse[d] = append([]byte{}, rec...)
-		}
-		if fc != f.fromClient || rec[0] != ref.RecAppData && f.kind != "eos" {
-			// only application records of the attacked direction are counted (alerts pass, except that a held swap record is flushed)
-			if fc == f.fromClient && held != nil {
-				h := held
-				held = nil
-				return [][]byte{rec, h}, false
-			}
-			return nil, false
-		}
-		k := cnt[d]
-		cnt[d]++
-		if held != nil { // second half of a swap
-			h := held
-			held = nil
-			return [][]byte{rec, h}, false
-		}
-		if k != f.k {
-			return nil, false
-		}
-		atomic.StoreInt32(&faultApplied, 1)
-		m := append([]byte{}, rec...)
-		switch f.kind {
-		case "flip":
-			// region by arg: 0 header type/version, 1 explicit IV/nonce, 2 body middle, 3 last 32 bytes (MAC/tag/padding)
-			body := len(m) - 5
-			var pos int
-			switch f.arg % 4 {
-			case 0:
-				pos = 5 + (f.arg/4)%minInt(8, body)
-			case 1:
-				pos = 5 + (f.arg/4)%minInt(16, body)
-			case 2:
-				pos = 5 + (f.arg/4)%body
-			default:
-				pos = len(m) - 1 - (f.arg/4)%minInt(32, body)
-			}
-			m[pos] ^= 1 << uint((f.arg>>12)%8)
-			return [][]byte{m}, false
-		case "truncate":
-			cut := 1 + f.arg%32
-			if f.arg%5 == 0 {
-				cut = 16
-			}
-			if cut >= len(m)-5 {
-				cut = len(m) - 6
-			}
-			m = m[:len(m)-cut]
-			m[3], m[4] = byte((len(m)-5)>>8), byte(len(m)-5)
-			return [][]byte{m}, false
-		case "extend":
-			add := 1 + f.arg%32
-			if f.arg%5 == 0 {
-				add = 16
-			}
-			m = append(m, bytes.Repeat([]byte{byte(f.arg)}, add)...)
-			m[3], m[4] = byte((len(m)-5)>>8), byte(len(m)-5)
-			return [][]byte{m}, false
-		case "swap":
-			held = m
-			return [][]byte{}, false
-		case "dup":
-			return [][]byte{m, m}, false
-		case "drop":
-			return [][]byte{}, false
-		case "inject-reverse":
-			if lastReverse[1-d] != nil {
-				return [][]byte{lastReverse[1-d], m}, false
-			}
-			// nothing seen yet from the other direction: inject a copy of this record re-typed as from nowhere (replay of itself later)
-			return [][]byte{m, m}, false
-		case "inject-foreign":
-			if foreign[d] != nil {
-				return [][]byte{foreign[d], m}, false
-			}
-			return [][]byte{m, m}, false
-		case "hdr-type":
-			m[0] = []byte{20, 21, 22, 24, 0, 255}[f.arg%6]
-			return [][]byte{m}, false
-		case "hdr-version":
-			if f.arg%2 == 0 {
-				m[1] ^= byte(1 + f.arg%3)
-			} else {
-				m[2] ^= byte(1 + f.arg%3)
-			}
-			return [][]byte{m}, false
-		case "hdr-length":
-			l := len(m) - 5
-			nl := []int{l - 1, l + 1, l - 16, l + 16, 0, 0x4800}[f.arg%6]
-			if nl < 0 {
-				nl = 0
-			}
-			m[3], m[4] = byte(nl>>8), byte(nl)
-			return [][]byte{m}, false
-		case "eos":
-			return [][]byte{m}, true
-		}
-		return nil, false
-	}
+	var armed, faultApplied int32
+	mut := c07Mutator(f, &foreign, &armed, &faultApplied)
 	out := handshakePair(ccfg, scfg, mut)
 	if !out.cli.completed || !out.srv.completed {
 		rep.Violation("C07/harness/handshake-failed", fmt.Sprintf("%v / %v", out.cli.err, out.srv.err), w)
@@ -407,6 +294,127 @@ func runC07Session(c *Ctx, pki *tlsPKI, suite uint16, f c07Fault, idx int, ivMu 
 	if idx == 4 {
 		rep.Sample(map[string]interface{}{"kind": "blackbox", "suite": suiteName(suite), "fault": f.String(), "write_sizes": sizes, "delivered": len(got), "expected": want, "read_error": errStr(rerr), "receiver_alert": alert})
 	}
+}
+
+// c07Mutator builds the record rewriter of one black-box session: it counts the application records of the attacked
+// direction once *armed is set and applies fault f to record number f.k (sets *applied when it does).
+func c07Mutator(f c07Fault, foreign *[2][]byte, armed, applied *int32) func(fc bool, i int, rec []byte) ([][]byte, bool) {
+	var cnt [2]int
+	var held []byte
+	var lastReverse [2][]byte
+	var mmu sync.Mutex
+	mut := func(fc bool, i int, rec []byte) ([][]byte, bool) {
+		mmu.Lock()
+		defer mmu.Unlock()
+		d := 1
+		if fc {
+			d = 0
+		}
+		if atomic.LoadInt32(armed) == 0 {
+			return nil, false
+		}
+		if rec[0] == ref.RecAppData {
+			lastReverse[d] = append([]byte{}, rec...)
+		}
+		if fc != f.fromClient || rec[0] != ref.RecAppData && f.kind != "eos" {
+			// only application records of the attacked direction are counted (alerts pass, except that a held swap record is flushed)
+			if fc == f.fromClient && held != nil {
+				h := held
+				held = nil
+				return [][]byte{rec, h}, false
+			}
+			return nil, false
+		}
+		k := cnt[d]
+		cnt[d]++
+		if held != nil { // second half of a swap
+			h := held
+			held = nil
+			return [][]byte{rec, h}, false
+		}
+		if k != f.k {
+			return nil, false
+		}
+		atomic.StoreInt32(applied, 1)
+		m := append([]byte{}, rec...)
+		switch f.kind {
+		case "flip":
+			// region by arg: 0 header type/version, 1 explicit IV/nonce, 2 body middle, 3 last 32 bytes (MAC/tag/padding)
+			body := len(m) - 5
+			var pos int
+			switch f.arg % 4 {
+			case 0:
+				pos = 5 + (f.arg/4)%minInt(8, body)
+			case 1:
+				pos = 5 + (f.arg/4)%minInt(16, body)
+			case 2:
+				pos = 5 + (f.arg/4)%body
+			default:
+				pos = len(m) - 1 - (f.arg/4)%minInt(32, body)
+			}
+			m[pos] ^= 1 << uint((f.arg>>12)%8)
+			return [][]byte{m}, false
+		case "truncate":
+			cut := 1 + f.arg%32
+			if f.arg%5 == 0 {
+				cut = 16
+			}
+			if cut >= len(m)-5 {
+				cut = len(m) - 6
+			}
+			m = m[:len(m)-cut]
+			m[3], m[4] = byte((len(m)-5)>>8), byte(len(m)-5)
+			return [][]byte{m}, false
+		case "extend":
+			add := 1 + f.arg%32
+			if f.arg%5 == 0 {
+				add = 16
+			}
+			m = append(m, bytes.Repeat([]byte{byte(f.arg)}, add)...)
+			m[3], m[4] = byte((len(m)-5)>>8), byte(len(m)-5)
+			return [][]byte{m}, false
+		case "swap":
+			held = m
+			return [][]byte{}, false
+		case "dup":
+			return [][]byte{m, m}, false
+		case "drop":
+			return [][]byte{}, false
+		case "inject-reverse":
+			if lastReverse[1-d] != nil {
+				return [][]byte{lastReverse[1-d], m}, false
+			}
+			// nothing seen yet from the other direction: inject a copy of this record re-typed as from nowhere (replay of itself later)
+			return [][]byte{m, m}, false
+		case "inject-foreign":
+			if (*foreign)[d] != nil {
+				return [][]byte{(*foreign)[d], m}, false
+			}
+			return [][]byte{m, m}, false
+		case "hdr-type":
+			m[0] = []byte{20, 21, 22, 24, 0, 255}[f.arg%6]
+			return [][]byte{m}, false
+		case "hdr-version":
+			if f.arg%2 == 0 {
+				m[1] ^= byte(1 + f.arg%3)
+			} else {
+				m[2] ^= byte(1 + f.arg%3)
+			}
+			return [][]byte{m}, false
+		case "hdr-length":
+			l := len(m) - 5
+			nl := []int{l - 1, l + 1, l - 16, l + 16, 0, 0x4800}[f.arg%6]
+			if nl < 0 {
+				nl = 0
+			}
+			m[3], m[4] = byte(nl>>8), byte(nl)
+			return [][]byte{m}, false
+		case "eos":
+			return [][]byte{m}, true
+		}
+		return nil, false
+	}
+	return mut
 }
 
 func runC07White(c *Ctx) {
